@@ -3,7 +3,7 @@
    Model: Inputs.v (`run_inputs`, `vf_adaptive` = _add_input + create_input_node + _add_input_node composed with the
    solver loops of Solver.v), Interp.v (numpy interp / linspace).  Spec: `spec_value`/`spec_u`/`spec_run_inputs`. *)
 From Coq Require Import List ZArith QArith Qcanon Bool Arith.
-From PV Require Import History Solver SolverProofs Interp Inputs InputsProofs.
+From PV Require Import History Solver SolverProofs Interp Inputs InputsProofs InputsConv.
 Import ListNotations.
 Local Open Scope nat_scope.
 
@@ -169,6 +169,16 @@ Theorem C08_depth2_after_D89 :
               (Rows [[mkq 0 1; mkq 1 2]; [mkq 1 4; mkq 3 4]; [mkq 1 2; mkq 5 4]; [mkq 3 4; mkq 9 4]]) = true.
 Proof. exact depth2_after_D89. Qed.
 Print Assumptions C08_depth2_after_D89.
+
+(* the adaptive path has two entry points with two conventions for the duration the N samples cover: get_run_func places them
+   on linspace(0, N*step_size, N) (`vf_adaptive`), run() on linspace(0, simulation_time, N) (`vf_adaptive_run`, tied by the
+   stubbed-integrator stream since seed C08-m8).  They are the same vector field whenever every (normalised) input array has
+   N * step_size = simulation_time - one sample per step (InputsConv.v) *)
+Theorem C08_adaptive_conventions_agree : forall dt T udef W inputs t x,
+  (forall inp, In inp inputs -> (nq (alen (normalise (fst inp))) * dt)%Qc = T) ->
+  vf_adaptive dt udef W inputs t x = vf_adaptive_run T udef W inputs t x.
+Proof. exact adaptive_conventions_agree. Qed.
+Print Assumptions C08_adaptive_conventions_agree.
 
 (* non-vacuity: two units, a (4,2) array to both (columns), a 1-D array to unit 1 on top, an edge 0 -> 1; all guards hold
    and model and specification agree on the whole trajectory *)
